@@ -19,6 +19,7 @@ ASSUMPTIONS = ["an empty vector prints '# empty ...' (it misstates nothing)",
                "cell formatting is not re-implemented: each shown row must contain a distinguishing token of its value(s)"]
 
 NAN, INF = float("nan"), float("inf")
+VARIANT = [0]
 D = lambda i: date(2020, 1, 1 + i % 28)
 T = lambda i: datetime(2020, 1, 1 + i % 28, 3, 4, 5)
 GEN = {
@@ -97,7 +98,10 @@ def check_vector(agg, values, name, setting, declared=None):
     serif.set_repr_rows(setting)
     agg.evals += 1; agg.transitions += 1; agg.states += 1
     try:
-        v = Vector(list(values), name=name)
+        VARIANT[0] += 1
+        from mc import provenance
+        route, v = provenance.vector_variant(list(values), name, VARIANT[0])
+        case["route"] = route
         before = obs(v)
         fp = v.fingerprint()
         py = f"import serif\nfrom serif import Vector\nserif.set_repr_rows({setting!r})\nprint(repr(Vector({list(values)[:8]!r} + ..., name={name!r})))"
@@ -187,6 +191,11 @@ def check_table(agg, coldefs, nrows, setting, per_table=None):
                 vals[0] = None
             cols.append(Vector(vals, name=nm) if nrows else Vector([], name=nm, dtype={"int": int, "str": str, "float": float, "bool": bool, "date": date}.get(kind)))
         t = Table(cols) if cols else Table()
+        if cols and nrows:
+            VARIANT[0] += 1
+            from mc import provenance
+            route, t = provenance.table_variant([(c_._name, list(c_._underlying)) for c_ in cols], VARIANT[0])
+            case["route"] = route
         if per_table is not None:
             t._repr_rows = per_table
         before = obs(t)
